@@ -17,14 +17,15 @@ EXTENDS Naturals, FiniteSets
 CONSTANT HoldMax
 
 VARIABLES pending,   \* set of [n, src, id, qn, lk, qt, tun, held]
-          done       \* questions <<src, qn, qt>> that have been answered at least once (repeats of those are
-                     \* answered from the server's memories at once and never count as held back)
+          done       \* questions <<lk, qt>> that have been answered at least once (repeats of those - from the same or
+                     \* another relay address, the server's memories are keyed by question - are answered from the
+                     \* memories at once and never count as held back)
 
 MAInit == pending = {} /\ done = {}
 
 Recv(n, src, id, qn, lk, qt, tun) ==
     /\ pending' = pending \cup {[n |-> n, src |-> src, id |-> id, qn |-> qn, lk |-> lk, qt |-> qt,
-                                 tun |-> tun, held |-> (<<src, lk, qt>> \notin done)]}
+                                 tun |-> tun, held |-> (<<lk, qt>> \notin done)]}
     /\ UNCHANGED done
 
 Match(r, dst, id, qn, qt) == r.src = dst /\ r.id = id /\ r.qn = qn /\ r.qt = qt
@@ -39,9 +40,9 @@ Ans(dst, id, qn, lk, qt, hdr) ==
        \* tunnel query with another question from the same address is still held back
        /\ (hdr /\ r.tun /\ r.held /\ r.id # 0) =>
              ~\E o \in pending : /\ o.src = r.src /\ o.tun /\ o.held /\ o.id # 0 /\ o.lk # r.lk /\ o.n < r.n
-       /\ pending' = {IF x.src = dst /\ x.lk = lk /\ x.qt = qt THEN [x EXCEPT !.held = FALSE] ELSE x
+       /\ pending' = {IF x.lk = lk /\ x.qt = qt THEN [x EXCEPT !.held = FALSE] ELSE x
                       : x \in pending \ {r}}
-       /\ done' = done \cup {<<dst, lk, qt>>}
+       /\ done' = done \cup {<<lk, qt>>}
 
 HeldNames(s) == {r.lk : r \in {x \in pending : x.src = s /\ x.held /\ x.tun /\ x.id # 0}}
 
